@@ -18,7 +18,8 @@ CHOICES = [
     ('str/str', '"hi"', "&'static str", '"hi"', True), ('str/String', '"hi"', 'String', 'String::from("hi")', True),
     ('byte/u8', "b'x'", 'u8', '120u8', True), ('byte/u16', "b'x'", 'u16', '120u16', True), ('byte/W', "b'x'", 'W', 'W(120)', True),
     ('bstr/ref', 'b"hi"', "&'static [u8; 2]", 'b"hi"', True), ('bstr/Vec', 'b"hi"', 'Vec<u8>', 'vec![104u8, 105u8]', True),
-    ('neg/i8', '-5', 'i8', '-5i8', False), ('sum/u8', '1 + 2', 'u8', '3u8', False), ('call/V', 'mk_v(3)', 'V', 'V(3)', False),
+    ('neg/i8', '-5', 'i8', '-5i8', False), ('negs/i32', '-4i8', 'i32', '-4i32', True), ('negf/f64', '-2.5f32', 'f64', '-2.5f64', True), ('neg/DI', '-40', 'DI', 'DI(960)', True),
+    ('neg/i64', '-7', 'i64', '-7i64', True), ('sum/u8', '1 + 2', 'u8', '3u8', False), ('call/V', 'mk_v(3)', 'V', 'V(3)', False),
     ('path/u8', 'K7', 'u8', '7u8', False), ('ctor/V', 'V(4)', 'V', 'V(4)', False), ('callS/String', 'String::from("s")', 'String', 'String::from("s")', False),
     ('not/bool', '!false', 'bool', 'true', False), ('cast/u16', '3u8 as u16', 'u16', '3u16', False),
 ]
